@@ -92,6 +92,10 @@ def gen_case(rng, cid, ops=OPS, nmax=5, maxelems=120, ev="Stencil"):
                 "fill_value": gen.rand_tagged(rng, axnames, [-3, -2, -1, 0, 1, 2, 3], partial=True)}
         case = {"id": cid, "ev": ev, "op": rng.choice(ops),
                 "grid": {"axes": axes, "extra": extra, "ctor": ctor}, "args": args}
+        if rng.random() < 0.25:
+            case["grid"]["coordvals"] = rng.choice(["decreasing", "irregular", "unsorted"])     # labels play no role in the operators
+        if rng.random() < 0.2:
+            data["layout"] = rng.choice(["F", "strided", "reversed", "readonly"])
         if rng.random() < 0.2:
             args["npnum"] = rng.choice(["f64", "f32", "i64", "float"])
         if rng.random() < 0.2:
